@@ -360,6 +360,11 @@ def instances(tier, seed):
         must = [c for c in combos if c['init'] == 'full' and c['body_refs'] in (1, 4) and c['body'] in ('fit', 'fit+1', 'empty')
                 and c['kind'] == 'int' and c['src'] == 'std' and c['dest'] == 'std']
         pick = rnd.sample(combos, 200) + must
+        # 15-byte fees make every obligation a 120-bit var-length query (60 s an instance): quick keeps a seeded 20 of them and
+        # runs the others with 7-byte fees; thorough keeps them all
+        heavy = [c for c in pick if c['fee_l'] == 15]
+        keep = {id(c) for c in rnd.sample(heavy, min(20, len(heavy)))}
+        pick = [c if (c['fee_l'] != 15 or id(c) in keep) else dict(c, fee_l=7) for c in pick]
     else:
         pick = combos if len(combos) <= 3000 else rnd.sample(combos, 3000)
     # the expensive header class first: the pool then ends on cheap instances instead of waiting for a late expensive one
